@@ -124,6 +124,24 @@ def check_pipe(ctx, legs, qconj, sort, bunch, case, deep=True):
         P.test_contractible(Pc)
         if not isinstance(Pc, LegPipe) or Pc.qconj != -P.qconj or any(a.qconj != -b.qconj for a, b in zip(Pc.legs, P.legs)):
             ctx.violation('LegPipe.conj:structure', '', case)
+        # conjugation goes all the way down: every leg inside nested pipes is conjugated and each nested pipe still fuses correctly
+        def conj_rec(pc, p, where):
+            if pc.qconj != -p.qconj or not np.array_equal(np.asarray(pc.charges), np.asarray(p.charges)):
+                ctx.violation('LegPipe.conj:nested-leg-not-conjugated', '%s: qconj %d -> %d' % (where, p.qconj, pc.qconj), case)
+                return
+            if isinstance(p, LegPipe):
+                if not isinstance(pc, LegPipe) or len(pc.legs) != len(p.legs):
+                    ctx.violation('LegPipe.conj:nested-structure-lost', where, case)
+                    return
+                sub = []
+                tshadow.pipe_invariants(pc, where, sub)
+                for kind, what in sub:
+                    ctx.violation('LegPipe.conj:nested:%s' % kind, what, case)
+                ctx.count('monitor.nested_conj_checked')
+                for k_, (a_, b_) in enumerate(zip(pc.legs, p.legs)):
+                    conj_rec(a_, b_, '%s.legs[%d]' % (where, k_))
+
+        conj_rec(Pc, P, 'pipe.conj()')
         Po = P.outer_conj()
         if Po.qconj != -P.qconj or any(a.qconj != b.qconj for a, b in zip(Po.legs, P.legs)):
             ctx.violation('LegPipe.outer_conj:structure', '', case)
